@@ -24,8 +24,39 @@ def run(rp):
     native = getattr(cmod, "NATIVE", {})
     ctx = {"stubs": {}, "ufs": rp["inputs"].get("ufs", {}), "opaque_classes": reg.opaque_classes,
            "opaque_factories": native.get("opaque_factories", {})}
+    N.CTX.clear()
+    N.CTX.update(ctx)
+    ctx = N.CTX
+    N.CALLS.clear()
+    N.GHOST.clear()
+    for k, cc in reg.contracts.items():
+        N.ATTR_KINDS[k] = cc.kind
+        N.EFFECTS[k] = cc.effects
+    for g, v in c.ghost.items():
+        N.GHOST[g] = v if not hasattr(v, "make") else None
+    patched = []
+    for call in rp["inputs"].get("calls", []):
+        N.CALLS.setdefault(call["target"], []).append(call)
+    for tgt in list(N.CALLS):
+        if ":" in tgt and not tgt.split(":")[0] in ("threading", "re"):
+            try:
+                modname, _, path = tgt.partition(":")
+                import importlib
+                owner = importlib.import_module(modname)
+                parts = path.split(".")
+                for part in parts[:-1]:
+                    owner = getattr(owner, part)
+                orig = getattr(owner, parts[-1])
+                is_attr = reg.contracts[tgt].kind == "attribute" or isinstance(orig, property)
+                if is_attr:
+                    setattr(owner, parts[-1], property(lambda self, _t=tgt: N.pop_call(_t)))
+                else:
+                    setattr(owner, parts[-1], (lambda _t: (lambda *a, **k: N.pop_call(_t)))(tgt))
+                patched.append((owner, parts[-1], orig))
+            except Exception:
+                pass
     try:
-        args = {k: N.decode(v, ctx) for k, v in rp["inputs"]["args"].items()}
+        args = {k: N.decode(v, ctx) for k, v in rp["inputs"]["args"].items() if not k.startswith("outer_")}
     except N.Undecodable as e:
         return {"confirmed": False, "why": f"undecodable input: {e}"}
     env = dict(native.get("helpers", {}))
